@@ -150,6 +150,12 @@ def gen_session_writes(rng: random.Random) -> dict:
                     if noise:
                         target = min(target, 65515)
                     msgs.append(sized_msg(rng, max(0, target)))
+                elif rng.random() < 0.4:
+                    # any client-originated message type of api.proto with random (also non-default) scalar fields
+                    from .c12 import rand_fields
+
+                    name = rng.choice(sorted(n for n in _table().client_types() if n not in ("HelloRequest", "ConnectRequest", "DisconnectRequest", "DisconnectResponse")))
+                    msgs.append([name, rand_fields(rng, name)])
                 else:
                     msgs.append(pick(rng, SMALL))
             if rng.random() < 0.1:
